@@ -712,6 +712,8 @@ pub fn generate(rng: &mut Rng, tier: Tier, emit: &mut dyn FnMut(String)) {
 
     // session level: Session::prepare / ClusterState::compute_token against the mock cluster, compared with the model
     crate::e2e::partitioner::generate_sesspart(rng, tier, emit);
+    // the metadata fetch behind compute_token: partition-key column order from system_schema.columns rows in any order
+    crate::e2e::partitioner::generate_pkfetch(rng, tier, emit);
 }
 
 // ------------------------------------------------------------------------------------------------
@@ -1085,6 +1087,7 @@ pub fn run(case: &str, ctx: &mut Ctx) -> String {
             }
         }
         ("sesspart", _) => crate::e2e::partitioner::run(&w[1..], ctx),
+        ("pkfetch", 3) => crate::e2e::partitioner::run_pkfetch(&w[1..], ctx),
         ("svnth", n) if n >= 2 => {
             let Some(ks) = parse_lens(w[1]) else { return "bad-case".into() };
             let Some(vals) = w[2..].iter().map(|s| parse_val(s)).collect::<Option<Vec<Val>>>() else {
